@@ -27,6 +27,10 @@ const DELTA: u64 = 100;
 struct RecBlockstore {
     inner: InMemoryBlockstore,
     log: Arc<Mutex<Vec<Value>>>,
+    /// stop the pruner (cancellation, as Node::stop does) right after the n-th blockstore removal, i.e. in the
+    /// middle of removing a block: whatever the worker does then, a header must not go before its CIDs
+    stop_at: Mutex<Option<(u64, Arc<VPruner>)>>,
+    removals: std::sync::atomic::AtomicU64,
 }
 
 impl Blockstore for RecBlockstore {
@@ -40,6 +44,12 @@ impl Blockstore for RecBlockstore {
         let r = self.inner.remove(cid).await;
         let n = cid.hash().digest()[0] as u64 + 256 * cid.hash().digest()[1] as u64;
         self.log.lock().unwrap().push(json!({"name": "bsremove", "c": n, "ok": r.is_ok() as u8}));
+        let k = self.removals.fetch_add(1, std::sync::atomic::Ordering::SeqCst) + 1;
+        if let Some((at, pruner)) = self.stop_at.lock().unwrap().as_ref() {
+            if *at == k {
+                pruner.stop();
+            }
+        }
         r
     }
     async fn has<const S: usize>(&self, cid: &CidGeneric<S>) -> blockstore::Result<bool> {
@@ -102,7 +112,8 @@ pub fn record(args: &Args) {
                 }
             });
             let store = Arc::new(RecStore::new(InMemoryStore::new(), hook));
-            let bs = Arc::new(RecBlockstore { inner: InMemoryBlockstore::new(), log: log.clone() });
+            let bs = Arc::new(RecBlockstore { inner: InMemoryBlockstore::new(), log: log.clone(), stop_at: Mutex::new(None),
+                                              removals: Default::default() });
             let mut stored: BTreeSet<u64> = BTreeSet::new();
             let mut pruned: BTreeSet<u64> = BTreeSet::new();
             let mut sampled: BTreeSet<u64> = BTreeSet::new();
@@ -221,7 +232,10 @@ pub fn record(args: &Args) {
             // edges (measured on the real clock): every other run uses 1 ms, so that the cached edges are reused as
             // hints (C36 fast path) after the first removals; the others keep the first computation for the whole run
             let block_time = if run % 2 == 0 { Duration::from_millis(1) } else { Duration::from_millis(50) };
-            let pruner = VPruner::start(&daser, store.clone(), bs.clone(), &events, block_time, wprune, wsamp);
+            let pruner = Arc::new(VPruner::start(&daser, store.clone(), bs.clone(), &events, block_time, wprune, wsamp));
+            if run % 5 == 3 {
+                *bs.stop_at.lock().unwrap() = Some((1 + run % 3, pruner.clone()));
+            }
             let (mut n_removed, mut n_refused, mut n_granted) = (0u64, 0u64, 0u64);
             let mut idle = 0;
             for _step in 0..4000 {
@@ -280,6 +294,7 @@ pub fn record(args: &Args) {
             }
             pruner.stop();
             pruner.join().await;
+            *bs.stop_at.lock().unwrap() = None;
             for v in log.lock().unwrap().drain(..) {
                 tw.emit(v);
             }
